@@ -20,8 +20,8 @@ Algorithm level (models `Model.FastPath`, `Model.Binary`; tie: component ops `fp
 * `binary_decides` — without `many_digits` (or with `lossy`) `binary` always returns a valid float;
 * `binary_truncated_correct` — **complete**: a *valid* non-lossy answer for a truncated mantissa is `roundNE x`
   for every `x ∈ [M, M+1)·base^e` (the true value of the literal);
-* `bellerophon_radix_sound` — the full statement for generic radices, a `Prop`; `bellerophon_radix_sound_partial`
-  — proved for every **untruncated** mantissa, all 29 generic radices, `radix` and `compact` tables;
+* `bellerophon_radix_sound` — **complete** on the model: a valid answer of Bellerophon is `roundNE` of the true
+  value, all 29 generic radices, `radix` and `compact` tables, truncated mantissas included;
 * `slowBinary_correct` — **complete**: the undecided case: both digit loops, leading-zero skipping, the
   `u64_step` cut, the sticky flag and the rounding of `slow_binary`.
 -/
@@ -209,20 +209,28 @@ def IsBellTable (P : Gen.Bellerophon.Powers) (r : Nat) : Prop :=
   (r ∈ bellRadicesRadix ∧ P = Gen.Bellerophon.Radix.powers r) ∨
   (r ∈ bellRadicesCompact ∧ P = Gen.Bellerophon.CompactRadix.powers r)
 
-/-- **`bellerophon_radix_sound` — full statement** (a `Prop`): as `Props.C01.bellerophon_sound`, any radix. -/
-def bellerophon_radix_sound : Prop :=
-  ∀ F, (F = FTy.f64 ∨ F = FTy.f32) → ∀ P r, IsBellTable P r → ∀ (n : Num), n.mantissa < 2 ^ 64 →
-    ∀ (num den : Nat), 0 < den →
-    (powFrac r n.exponent n.mantissa).1 * den ≤ num * (powFrac r n.exponent n.mantissa).2 →
-    (if n.manyDigits then num * (powFrac r n.exponent (n.mantissa + 1)).2 < (powFrac r n.exponent (n.mantissa + 1)).1 * den
-     else num * (powFrac r n.exponent n.mantissa).2 = (powFrac r n.exponent n.mantissa).1 * den) →
-    ∀ fp, Bellerophon.bellerophon F P n false = .ok fp → 0 ≤ fp.exp →
-      extendedToFloat F fp = roundNE F.fmt num den
+open LexVerif.Proof.Bell in
+/-- **`bellerophon_radix_sound`** (**complete** on the model): for every radix with Bellerophon tables (29 generic
+radices, `radix` and `compact` builds; 10 under `compact`), a valid non-lossy answer of `bellerophon::<F, FORMAT>`
+is `roundNE` of the true value of the literal (`TrueValue`: `w·r^e`, or any value in `[w, w+1)·r^e` for a
+truncated mantissa `w ≥ 2^44` — a `u64_step`-digit mantissa is at least `r^(u64_step−1) ≥ 2^55`). -/
+theorem bellerophon_radix_sound (F : FTy) (hF : F = FTy.f64 ∨ F = FTy.f32)
+    (P : Gen.Bellerophon.Powers) (r : Nat) (hP : IsBellTable P r) (n : Num) (hw : n.mantissa < 2 ^ 64)
+    (hmw : n.manyDigits = true → 2 ^ 44 ≤ n.mantissa) (num den : Nat) (hd : 0 < den)
+    (htv : TrueValue r n num den) {fp : ExtendedFloat80}
+    (h : Bellerophon.bellerophon F P n false = .ok fp) (hv : 0 ≤ fp.exp) :
+    extendedToFloat F fp = roundNE F.fmt num den := by
+  have hc : BellFacts r P := by
+    rcases hP with ⟨hr, rfl⟩ | ⟨hr, rfl⟩
+    · exact bellFacts_of (bellCheck_radix r hr)
+    · exact bellFacts_of (bellCheck_compact r hr)
+  rcases hF with h' | h' <;> subst h'
+  · exact bellerophon_sound_all layout_f64 (by decide) hc n hw hmw num den hd htv h hv
+  · exact bellerophon_sound_all layout_f32 (by decide) hc n hw hmw num den hd htv h hv
 
 open LexVerif.Proof.Bell in
-/-- **`bellerophon_radix_sound_partial`**: untruncated mantissas, every radix with tables, every exponent:
-a valid answer of `bellerophon::<F, FORMAT>` is `roundNE (w·r^e)`. -/
-theorem bellerophon_radix_sound_partial (F : FTy) (hF : F = FTy.f64 ∨ F = FTy.f32)
+/-- the untruncated case in closed form -/
+theorem bellerophon_radix_sound_untruncated (F : FTy) (hF : F = FTy.f64 ∨ F = FTy.f32)
     (P : Gen.Bellerophon.Powers) (r : Nat) (hP : IsBellTable P r) (n : Num) (hmany : n.manyDigits = false)
     (hw : n.mantissa < 2 ^ 64) {fp : ExtendedFloat80}
     (h : Bellerophon.bellerophon F P n false = .ok fp) (hv : 0 ≤ fp.exp) :
